@@ -112,6 +112,14 @@ def variants(rng, c):
             out.append(('nan', c4, impl.run_compute(c4)))
         except Exception:
             pass
+    # the blanked pixels filled with zeros (same structures when nothing at or below zero is kept): different data
+    if c.get('dtype', 'float64') == 'float64' and any(v is None for v in c['vals']) and (c.get('minv') is not None and c['minv'] >= 0):
+        c6 = copy.deepcopy(c)
+        c6['vals'] = [0 if v is None else v for v in c6['vals']]
+        try:
+            out.append(('nan-filled-with-zero', c6, impl.run_compute(c6)))
+        except Exception:
+            pass
     # same values, different shape
     if len(c['shape']) >= 2:
         c5 = copy.deepcopy(c)
